@@ -58,13 +58,17 @@ class Reach:
             self.hit[spec] = set()
             self.codes[code] = spec
             mon.set_local_events(TOOL, code, mon.events.LINE)
-            # nested code objects (closures such as finalize_service_task, wrapper)
-            for const in code.co_consts:
-                if hasattr(const, "co_code"):
-                    sub = f"{spec}.<{const.co_name}>"
-                    self.hit[sub] = set()
-                    self.codes[const] = sub
-                    mon.set_local_events(TOOL, const, mon.events.LINE)
+            # nested code objects (closures such as finalize_service_task, wrapper.teardown_callback)
+            def nested(parent: Any, prefix: str) -> None:
+                for const in parent.co_consts:
+                    if hasattr(const, "co_code") and not const.co_name.startswith("<"):
+                        sub = f"{prefix}.<{const.co_name}>"
+                        self.hit[sub] = set()
+                        self.codes[const] = sub
+                        mon.set_local_events(TOOL, const, mon.events.LINE)
+                        nested(const, sub)
+
+            nested(code, spec)
 
     def stop(self) -> dict[str, list[int]]:
         if self.active:
